@@ -1,0 +1,12 @@
+//go:build verif
+
+package edit
+
+import "src.elv.sh/pkg/cli/tk"
+
+// VerifIsSyntaxComplete exposes isSyntaxComplete, which decides whether the
+// Enter key submits the code or inserts a newline.
+func VerifIsSyntaxComplete(code string) bool { return isSyntaxComplete(code) }
+
+// VerifBufferBuiltins exposes the table of pure buffer-editing builtins.
+func VerifBufferBuiltins() map[string]func(*tk.CodeBuffer) { return bufferBuiltinsData }
